@@ -4,6 +4,7 @@ package main
 
 import (
 	"fmt"
+	"sort"
 	"strings"
 
 	"tunnox-core/internal/verifharness/common"
@@ -50,6 +51,8 @@ func ticks(ttl int64) (short1, short2, long int64) {
 //	heartbeats, expiry): every word of length <= L over {h,b,c} x {conn0, conn1} + {short, long tick}.
 //
 // A2: one client, two connections on node 0 and one on node 1 (same-node kick + cross-node reconnect).
+// A4: one client registered on node 0: all connection-ending paths (c e d s k x) x reconnects, <= 3 / 4 steps.
+// A5: one client registered on node 0: split lookups (q … r) on both nodes around reconnects, cleanups, expiry, <= 4 / 5 steps.
 // A3: one client registered on node 0: heartbeats / reconnect / late close / ticks of 0.45 and 0.7 lifetimes, up to 5 steps in the thorough tier.
 func genExhaustive(tier string, emit func(string)) {
 	lenTick, lenNoTick, lenA2 := 3, 3, 3
@@ -79,6 +82,57 @@ func genExhaustive(tier string, emit func(string)) {
 	words(a3, lenA3, func(w []string) {
 		emit(header("red", 1000, 2, []int{7}) + " o:0.7.0 o:1.7.0 h:0.7.0 " + strings.Join(w, " "))
 	})
+	// A4: every path by which a connection ends: the client is registered on 0.7.0; direct close, adapter read-loop
+	// end, Disconnect command, heartbeat-timeout sweep, duplicate-login eviction, node shutdown, against a same-node
+	// and a cross-node reconnect and the old connection's heartbeat
+	a4 := []string{"h:0.7.1", "h:1.7.0", "k:0.7.1", "x:0", "c:0.7.0", "e:0.7.0", "d:0.7.0", "s:0.7.0", "b:0.7.0"}
+	for _, be := range []string{"red", "mem"} {
+		words(a4, lenA2, func(w []string) {
+			emit(header(be, 1000, 2, []int{7}) + " o:0.7.0 o:0.7.1 o:1.7.0 h:0.7.0 " + strings.Join(w, " "))
+		})
+	}
+	// A5: lookups as two storage round trips with other events in between: the client is registered on 0.7.0; a
+	// lookup on node 1 / node 0 begins (q) and ends (r) around a same-node or cross-node reconnect, the old
+	// connection's cleanup, heartbeats and the expiry
+	a5 := []string{"q:1.7", "r:1.7", "q:0.7", "r:0.7", "h:0.7.1", "h:1.7.0", "c:0.7.0", "s:0.7.0", "b:1.7.0", "t:1300"}
+	lenA5 := 4
+	if tier == "thorough" {
+		lenA5 = 5
+	}
+	for _, be := range []string{"red", "mem"} {
+		tk := be == "red"
+		words(a5, lenA5, func(w []string) {
+			// well-formed and interesting only: every r ends a lookup in flight, at least one lookup spans an event
+			inflight := map[string]int{}
+			span := false
+			for i, t := range w {
+				switch t[0] {
+				case 'q':
+					if _, ok := inflight[t[2:]]; ok {
+						return
+					}
+					inflight[t[2:]] = i
+				case 'r':
+					b, ok := inflight[t[2:]]
+					if !ok {
+						return
+					}
+					if i > b+1 {
+						span = true
+					}
+					delete(inflight, t[2:])
+				case 't':
+					if !tk {
+						return
+					}
+				}
+			}
+			if !span {
+				return
+			}
+			emit(header(be, 1000, 2, []int{7}) + " o:0.7.0 o:0.7.1 o:1.7.0 h:0.7.0 " + strings.Join(w, " "))
+		})
+	}
 	a2 := []string{"h:0.7.0", "h:0.7.1", "h:1.7.0", "c:0.7.0", "c:0.7.1", "c:1.7.0", "b:0.7.0"}
 	for _, be := range []string{"red", "mem"} {
 		words(a2, lenA2, func(w []string) {
@@ -133,8 +187,16 @@ func genRandom(r *common.Rand, backend string, withTicks bool, emit func(string)
 		}
 		return common.Pick(r, cand)
 	}
+	inflight := map[string]bool{}
 	n := 6 + r.Intn(18)
 	for len(evs) < n {
+		// lookups in flight end with some probability after every event
+		for _, lk := range sortedKeys(inflight) {
+			if r.Intn(3) == 0 {
+				evs = append(evs, "r:"+lk)
+				inflight[lk] = false
+			}
+		}
 		switch w := r.Intn(100); {
 		case w < 22: // connect + authenticate (a reconnect if the client already has a connection)
 			sc := newConn()
@@ -164,8 +226,18 @@ func genRandom(r *common.Rand, backend string, withTicks bool, emit func(string)
 				sc = pickConn(func(s *simConn) bool { return s.open })
 			}
 			if sc != nil {
-				evs = append(evs, "c:"+sc.c.String())
-				sc.open = false
+				// by any path; the Disconnect command and the sweep only act on a connection the registry holds,
+				// so they are followed by the read loop's close
+				kind := common.Pick(r, []string{"c:", "c:", "e:", "e:", "d:", "s:", "s:"})
+				evs = append(evs, kind+sc.c.String())
+				if kind == "d:" || kind == "s:" {
+					if r.Intn(4) > 0 {
+						evs = append(evs, "e:"+sc.c.String())
+						sc.open = false
+					}
+				} else {
+					sc.open = false
+				}
 			}
 		case w < 82:
 			if withTicks {
@@ -183,7 +255,28 @@ func genRandom(r *common.Rand, backend string, withTicks bool, emit func(string)
 			if sc := pickConn(func(s *simConn) bool { return !s.open }); sc != nil && r.Bool() {
 				c = sc.c
 			}
-			evs = append(evs, common.Pick(r, []string{"b:", "h:", "c:", "u:"})+c.String())
+			evs = append(evs, common.Pick(r, []string{"b:", "h:", "c:", "u:", "e:", "d:", "s:", "k:"})+c.String())
+		case w < 93: // duplicate-login eviction / node shutdown; the read loops of the affected connections end later
+			if r.Intn(3) == 0 {
+				n := r.Intn(nn)
+				evs = append(evs, fmt.Sprintf("x:%d", n))
+				for _, sc := range conns {
+					if sc.c.node == n {
+						sc.authed = false
+					}
+				}
+			} else if sc := pickConn(func(s *simConn) bool { return s.open }); sc != nil {
+				evs = append(evs, "k:"+sc.c.String())
+			}
+		case w < 94 && len(evs) > 2: // a lookup begins; it ends a few events later (or stays in flight)
+			lk := fmt.Sprintf("%d.%d", r.Intn(nn), common.Pick(r, clients))
+			if !inflight[lk] {
+				evs = append(evs, "q:"+lk)
+				inflight[lk] = true
+			} else {
+				evs = append(evs, "r:"+lk)
+				inflight[lk] = false
+			}
 		case w < 95: // the same id offered again
 			if sc := pickConn(func(s *simConn) bool { return true }); sc != nil {
 				evs = append(evs, "o:"+sc.c.String())
@@ -195,6 +288,18 @@ func genRandom(r *common.Rand, backend string, withTicks bool, emit func(string)
 		}
 	}
 	emit(header(backend, ttl, nn, clients) + " " + strings.Join(evs, " "))
+}
+
+// lookups in flight, in a deterministic order (map iteration order must not leak into the case)
+func sortedKeys(m map[string]bool) []string {
+	var ks []string
+	for k, on := range m {
+		if on {
+			ks = append(ks, k)
+		}
+	}
+	sort.Strings(ks)
+	return ks
 }
 
 // ---- C: real-clock lifetimes on the backends that cannot be fast-forwarded (ttl 300 ms, sleeps of 110 / 400 ms)
@@ -229,6 +334,18 @@ func genBoundary(emit func(string)) {
 		emit(h(1, 7) + " o:0.7.0 h:0.7.0 o:0.7.1 h:0.7.1 c:0.7.0 b:0.7.1 c:0.7.1") // single node
 		emit(h(3, 7, 9) + " o:0.7.0 h:0.7.0 o:1.9.0 h:1.9.0 o:2.7.0 h:2.7.0 o:0.9.0 h:0.9.0 c:0.7.0 c:1.9.0 c:2.7.0 c:0.9.0")
 		emit(header(be, 0, 2, []int{7}) + " o:0.7.0 h:0.7.0 o:1.7.0 h:1.7.0 c:0.7.0 b:1.7.0") // default lifetime
+		// every ending path, alone and as the old node's late cleanup after a reconnect
+		for _, k := range []string{"c", "e", "d", "s"} {
+			emit(h(2, 7) + " o:0.7.0 h:0.7.0 " + k + ":0.7.0 " + k + ":0.7.0")
+			emit(h(2, 7) + " o:0.7.0 h:0.7.0 o:1.7.0 h:1.7.0 " + k + ":0.7.0 b:1.7.0 " + k + ":1.7.0")
+			emit(h(2, 7) + " o:0.7.0 " + k + ":0.7.0 f:0.7.0 " + k + ":0.7.0 " + k + ":0.7.5") // never registered / unknown id
+		}
+		// split lookups: around a same-node / cross-node reconnect, never ended, ended twice, for client 0, for nobody
+		emit(h(2, 7) + " o:0.7.0 h:0.7.0 q:1.7 o:0.7.1 h:0.7.1 r:1.7 b:0.7.1 r:1.7")
+		emit(h(3, 7) + " o:0.7.0 h:0.7.0 q:2.7 q:0.7 o:1.7.0 h:1.7.0 c:0.7.0 r:2.7 r:0.7 b:1.7.0 q:1.7")
+		emit(h(2, 7, 0) + " q:0.0 r:0.0 q:1.7 r:1.7 o:0.7.0 q:0.7 h:0.7.0 r:0.7 q:0.7 q:0.7 c:0.7.0 r:0.7")
+		emit(h(2, 7) + " o:0.7.0 h:0.7.0 o:0.7.1 k:0.7.1 d:0.7.0 s:0.7.0 e:0.7.0 h:0.7.1 k:0.7.1 k:0.7.0 e:0.7.1")                            // eviction, then the read loop ends
+		emit(h(2, 7, 9) + " o:0.7.0 h:0.7.0 o:0.9.0 h:0.9.0 o:1.9.1 h:1.9.1 x:0 b:0.7.0 s:0.7.0 e:0.7.0 e:0.9.0 o:0.7.1 h:0.7.1 x:1 e:1.9.1") // shutdown
 	}
 	// the 5 minute default, fast-forwarded
 	for _, be := range []string{"red", "hyr"} {
